@@ -28,7 +28,7 @@ STUB_TEXT = {
 
 
 class H:
-    def __init__(self, name, props, call, unwind=None, tier="quick", cap=180, mem=8,
+    def __init__(self, name, props, call, unwind=None, tier="quick", cap=180, mem=3,
                  stubs=(), funcs=(), bounds="", group=""):
         self.name = name
         self.props = list(props)
@@ -36,7 +36,7 @@ class H:
         self.unwind = unwind
         self.tier = tier          # "quick": run in both tiers; "thorough": thorough only
         self.cap = cap            # seconds, quick-tier cap (thorough multiplies)
-        self.mem = mem            # GB address-space cap for cbmc
+        self.mem = mem            # GB of RAM the scheduler reserves for this query (admission control)
         self.stubs = list(stubs)
         self.funcs = list(funcs)
         self.bounds = bounds
